@@ -59,15 +59,19 @@ def translator_cross_check(report, status):
     live = md.live_literals()
     checks = [
         ("disparity_range chunk_size", (gen["startY"], gen["stepY"], gen["startX"], gen["stepX"]), (live["chunk_size"],) * 4),
-        ("disparity_range offset", (gen["beginY"][0], tuple(gen["beginY"][2:]), gen["beginX"][0], tuple(gen["beginX"][2:])),
-         ("halfm", (live["offset"] or (None, None))[::-1], "halfm", (live["offset"] or (None, None))[::-1])),
+        ("disparity_range offset", ((gen["beginY"][0],) + tuple(gen["beginY"][2:]), (gen["beginX"][0],) + tuple(gen["beginX"][2:])),
+         (live["offset"], live["offset"])),
         # `ncol, nrow = shape`: the stop of the axis-0 split is the FIRST name of the unpacking, axis 1 the second
         ("disparity_range arange stops", (gen["stopYDim"], gen["stopXDim"]),
          tuple((live["shape_names"] or ()).index(a[1]) if a[1] in (live["shape_names"] or ()) else None for a in live["arange"])),
     ]
     for rows, cols, w in ((205, 103, 3), (102, 7, 3), (9, 206, 5), (6, 7, 5)):
+        try:
+            observed = md.observed_splits(rows, cols, w)
+        except Exception as exc:  # pylint: disable=broad-except
+            observed = f"disparity_range raised {type(exc).__name__}"
         checks.append((f"disparity_range array_split calls on {rows}x{cols}, window {w}",
-                       md.expected_splits(gen, rows, cols, w), md.observed_splits(rows, cols, w)))
+                       md.expected_splits(gen, rows, cols, w), observed))
     for what, a, b in checks:
         report.translator_checks += 1
         if a != b:
@@ -182,7 +186,15 @@ def check_case(ctx, report, left, right, pipe, lo, hi, label):
     case = {"label": label, "pipeline": pipe, "shape": [rows, cols], "disp": [lo, hi], "seed": ctx.seed,
             "bands": "band_im" in left.coords, "mask": "msk" in left}
     fp = (ds_fingerprint(left), ds_fingerprint(right))
-    out_l, out_r, m = run_multiscale_case(left, right, pipe)
+    try:
+        out_l, out_r, m = run_multiscale_case(left, right, pipe)
+    except Exception as exc:  # pylint: disable=broad-except
+        # a legal multiscale pipeline on a well-formed pair: the run must complete, whatever it computes
+        report.case(key=json.dumps([label, pipe, rows, cols, lo, hi], sort_keys=True), nontrivial=True, sample={"pipeline": pipe})
+        report.hit("scales_executed")
+        report.fail("scales_executed", "run_raises_" + type(exc).__name__, case, {"exception": str(exc)[:300]},
+                    "pandora.run raised on a legal multiscale pipeline")
+        return
     report.case(key=json.dumps([label, pipe, rows, cols, lo, hi], sort_keys=True), nontrivial=True,
                 sample={"pipeline": pipe, "shape": [rows, cols], "levels": [(l["scale"], l["rows"], l["cols"]) for l in m.levels]})
     report.count(f"scales_{ns}")
@@ -307,7 +319,14 @@ def check_direct(ctx, report, d, label):
     f, w = d["f"], d["window_size"]
     case = {"label": label, "kind": "direct", "shape": d["shape"], "window_size": w, "marge": d["marge"], "f": f,
             "user": [d["user_min"], d["user_max"]], "seed": ctx.seed}
-    mn, mx = md.disparity_range_direct(d["disp"], d["flags"], w, d["marge"], f, d["user_min"], d["user_max"])
+    try:
+        mn, mx = md.disparity_range_direct(d["disp"], d["flags"], w, d["marge"], f, d["user_min"], d["user_max"])
+    except Exception as exc:  # pylint: disable=broad-except
+        report.case(key=json.dumps([label, d["shape"], w, d["marge"], f]), nontrivial=True, sample={"shape": d["shape"]})
+        report.hit("finer_interval_rule")
+        report.fail("finer_interval_rule", "direct_raises_" + type(exc).__name__, case, {"exception": str(exc)[:300]},
+                    "disparity_range raised on a well-formed coarse level (window fits in the map)")
+        return
     model = ctx.lean.call("C15.next", disp=grid_to_wire(d["disp"]), flags=d["flags"].tolist(), window_size=w,
                           marge=d["marge"], f=f, user_min=core.enc(d["user_min"]), user_max=core.enc(d["user_max"]),
                           fine_rows=f * rows, fine_cols=f * cols, split=split_for(w))
